@@ -161,6 +161,11 @@ def erase_broadcast(t):
     def fn(n):
         if fname(n) == "ones":
             return sp.Integer(1)
+        # np.repeat(x, n, axis=-1) of a value that was given a trailing length-one axis: x for every position along that axis
+        if fname(n) in ("repeat", "ext_numpy_repeat") and len(n.args) == 3 and n.args[2] == sp.Tuple(Str("axis"), sp.Integer(-1)):
+            return n.args[0]
+        if fname(n) in ("broadcast_to", "ext_numpy_broadcast_to") and n.args:
+            return n.args[0]
         # buf = np.empty(shape); buf[...] = x   -- the values are x, broadcast into the buffer
         if fname(n) == "store" and len(n.args) == 3 and fname(n.args[0]) in ("empty", "zeros", "ones", "full") \
                 and n.args[1] == T.ELLIPSIS_T:
